@@ -34,6 +34,7 @@ type script struct {
 	Deps    [][]int `json:"deps"`
 	Enabled []bool  `json:"enabled"`
 	Steps   []step  `json:"steps"`
+	StartTimeoutMs int `json:"startTimeoutMs"` // > 0: shortened module start timeout (for "expire" steps)
 	Eager   bool    `json:"eager"` // issue the next API call as soon as the previous one has returned, even if the
 	// script (the model) expected callbacks to finish first: an early return is then followed by the next call
 }
@@ -47,6 +48,7 @@ type parked struct {
 	m  int
 	cb string
 	ch chan outcome
+	at time.Time
 }
 
 var (
@@ -62,7 +64,7 @@ var (
 func name(i int) string { return fmt.Sprintf("m%d", i) }
 
 func gate(m int, cb string) error {
-	p := &parked{m: m, cb: cb, ch: make(chan outcome, 1)}
+	p := &parked{m: m, cb: cb, ch: make(chan outcome, 1), at: time.Now()}
 	mu.Lock()
 	tr.Emit(map[string]any{"e": "begin", "m": m, "cb": cb, "h": 0})
 	gates = append(gates, p)
@@ -260,6 +262,10 @@ func main() {
 		}
 	}
 
+	if sc.StartTimeoutMs > 0 {
+		modules.VerifSetTimeouts(time.Duration(sc.StartTimeoutMs)*time.Millisecond, 30*time.Second)
+	}
+
 	const patience = 400 * time.Millisecond
 	steps := append([]step{}, sc.Steps...)
 	for len(steps) > 0 {
@@ -320,6 +326,31 @@ func main() {
 			mods[st.M-1].SetEnabled(st.Ok)
 			tr.Emit(map[string]any{"e": "toggle", "m": st.M, "on": st.Ok, "h": 0})
 			mu.Unlock()
+		case "expire":
+			// the start routine of module st.M stays at its gate beyond the (shortened) start timeout: the manager
+			// gives up on it; the routine itself returns only when a later step finishes it
+			var hung *parked
+			for k := 0; k < 2000 && hung == nil; k++ {
+				mu.Lock()
+				for _, g := range gates {
+					if g.m == st.M && g.cb == "start" {
+						hung = g
+					}
+				}
+				mu.Unlock()
+				if hung == nil {
+					time.Sleep(200 * time.Microsecond)
+				}
+			}
+			if hung == nil || sc.StartTimeoutMs <= 0 {
+				note("start routine not parked: step skipped", st)
+				continue
+			}
+			time.Sleep(time.Until(hung.at.Add(time.Duration(sc.StartTimeoutMs+150) * time.Millisecond)))
+			mu.Lock()
+			tr.Emit(map[string]any{"e": "expired", "m": st.M, "cb": "start", "h": 0})
+			mu.Unlock()
+			waitIdle(2 * time.Second)
 		case "finish":
 			p := waitParked(st.M, patience)
 			if p == nil {
